@@ -599,3 +599,45 @@ func Harness_app_keywords() {
 	verifAssert("keyword-run-ok", err1 == nil && err2 == nil)
 	verifAssert("keyword-period=output-on-filtered-log", out1 == out2)
 }
+
+func hStripEscapes(s string) string {
+	for _, code := range []string{"\x1B[0m", "\x1B[31m", "\x1B[32m"} {
+		s = verifReplaceAll(s, code, "")
+	}
+	return s
+}
+
+// Harness_app_color: for the register variants, through the real application with symbolic
+// quantities: --no-color given globally or on the sub-command gives the same output; the
+// default (coloured) output is that output once the escape codes are removed; a positive
+// amount is wrapped in red, a negative one in green, zero in neither.
+func Harness_app_color() {
+	variants := [][]string{{"reg"}, {"reg", "--use-old-reg-reporter"}, {"reg", "--internal-template-name=left-aligned"}, {"reg", "--totals-only"}}
+	vi := verifChoose("variant", len(variants))
+	verifLabel("site", strings.Join(variants[vi], " "))
+	tok, q := verifNum("qty")
+	sign := 0
+	if q > 0 {
+		sign = 1
+	} else if q < 0 {
+		sign = -1
+	}
+	logName := verifFile("log", "2021/01/01:\n  unknown: "+tok+"\n")
+	base := []string{"--logfile=" + logName, "--database=" + verifFile("db", hAppDB)}
+	plainG, e1 := hApp(-1, append(append(append([]string{}, base...), "--no-color"), variants[vi]...)...)
+	plainS, e2 := hApp(-1, append(append(append([]string{}, base...), variants[vi]...), "--no-color")...)
+	col, e3 := hApp(-1, append(append([]string{}, base...), variants[vi]...)...)
+	verifCover("ran")
+	verifAssert("color-runs-ok", e1 == nil && e2 == nil && e3 == nil)
+	verifAssert("no-color-global=no-color-on-sub-command", plainG == plainS)
+	verifAssert("coloured-output-without-escapes=plain-output", hStripEscapes(col) == plainG)
+	red, green := verifContains(col, "\x1B[31m"), verifContains(col, "\x1B[32m")
+	switch sign {
+	case 1:
+		verifAssert("positive-is-red", red && !green)
+	case -1:
+		verifAssert("negative-is-green", green)
+	default:
+		verifAssert("zero-is-uncoloured", !red && !green)
+	}
+}
